@@ -15,7 +15,7 @@ LEVEL = "exploration"
 RULE = (
     "Digits: N=0..120 x every spelling of every unit pattern (spellings that the library itself reads as a clock time when written after a number, e.g. '5h', are skipped and counted).  "
     "Number words: English one..thirtyone and German ein(e)..einunddreissig/einunddreißig (dictionary in the harness, as named by the property) x unit words of both languages.  "
-    "Half forms.  '<date[ hh:mm]> for|für <N> <unit>': start dates (quick: month starts/ends + leap days of 2016-2019; thorough: every date of 2016-2019 and month ends 2016-2043) x N in "
+    "Half forms.  '<date[ hh:mm]> for|für <N> <unit>': start dates (quick: month starts/ends + leap days of 2016-2019; thorough: every date of 2016-2019 and month ends 2016-2029) x N in "
     "{0,1,2,3,7,28,29,30,31,60,365,366,1461} x 6 units; expected end by refcal arithmetic (months clip to month length).  '<N days|nights> <range>' for range lengths 1..10 x N 0..10 in three "
     "word orders: full-span interval iff the range is N days long.  Non-trivial = every judged case with N != 1; distinct = distinct texts."
 )
@@ -63,7 +63,8 @@ def _start_dates(tier):
         if tier == "thorough" or d.day in (1, 28, 29, 30, 31) or (d.month, d.day) in ((3, 7),):
             out.append(d)
     if tier == "thorough":
-        for d in refcal.cycle(2020, 2043):
+        # month ends up to 2029 only: the library's year pattern is 19\d\d|20[0-2]\d, later years are not claimed to parse
+        for d in refcal.cycle(2020, 2029):
             if d == refcal.last_of_month(d):
                 out.append(d)
     return out
